@@ -99,9 +99,13 @@ def classify(j):
     got = {o["name"] for o in j["obs"]}
     gms = set(j.get("go_method_set") or [])
     f["renders_method_outside_go_method_set"] = bool(got - gms)
+    own = {m["name"] for m in j["tree"].get("own") or []}
+    several = sorted(n for n in got - own if sum(1 for d in min_depths(j["tree"], n) if d) >= 2)
+    f["collected_name_defined_under_several_fields"] = bool(several)
+    f["wrong_type_for_method"] = any("wrong type for method" in e for e in j.get("build_errors") or [])
     f["embedding_height"] = height(j["tree"])
     f["compiled"] = j["compiled"]
-    f["methods_involved"] = sorted(set(dup + lost) | (got - gms))
+    f["methods_involved"] = sorted(set(dup + lost) | (got - gms) | set(several))
     return f
 
 
